@@ -19,6 +19,9 @@ RULE = (
 
 
 def run(rec, hub, tier, seed, shard, nshards, budget):
+    from ..oracles import bystand
+
+    bystand.register(hub, "C10")
     rec.require(dsm.M10, 50)
     n = 300 if tier == "quick" else 2500
     for k in range(n):
@@ -30,5 +33,8 @@ def run(rec, hub, tier, seed, shard, nshards, budget):
 
 
 def replay(rec, hub, case):
+    from ..oracles import bystand
+
+    bystand.register(hub, "C10")
     rec.set_case(**case)
     dsm.c10_case(rec, hub, case_nprng(case["seed"], "c10.case", 0, case["idx"]), case.get("tier", "quick"))
